@@ -121,12 +121,19 @@ def scenario(ch, cfg):
     fc.os = fs.os
     fc.time = _Time()
     nfiles = 1 + ch.weighted([3, 1], "nfiles")
-    files = ["a", "b"][:nfiles]
+    # one run in three uses names with a directory part (the documented "tables/prices" form); the directory exists
+    # only if one of the files does
+    nested = ch.draw(3, "nested") == 0
+    files = (["t/a", "t/b"] if nested else ["a", "b"])[:nfiles]
+    if nested:
+        w.stats["probe_names_with_directory_part"] += 1
     init = {}
     for f in files:
         if ch.weighted([4, 1], "absent") == 0:
             init[f] = f"init-{f}".encode() + b"!" * ch.draw(3, "initlen")
             fs.files[f"{ROOT}/{f}"] = bytearray(init[f])
+            if "/" in f:
+                fs.dirs.add(f"{ROOT}/{f.rsplit('/', 1)[0]}")
         else:
             init[f] = None
     nclients = 2 + ch.weighted([2, 1], "nclients")
@@ -145,7 +152,8 @@ def scenario(ch, cfg):
                 i = next(vals)
                 arg = f"v{i}".encode() + b"." * ch.draw(4, "vlen")
                 maxlen = max(maxlen, len(arg))
-            ops.append({"kind": kind, "file": f, "arg": arg, "client": c})
+            # the durable form of an update (what the key-value store always uses) takes the same path plus an fsync
+            ops.append({"kind": kind, "file": f, "arg": arg, "client": c, "fsync": kind == "update" and ch.draw(3, "fsync") == 0})
         plans.append(ops)
     lim_kind = ch.weighted([3, 3, 2], "limit")
     limit = [1 << 20, maxlen, 2 * maxlen][lim_kind]
@@ -220,7 +228,8 @@ def scenario(ch, cfg):
                 if op["kind"] == "get":
                     r = ("ok", bytes(cache.get_file(op["file"])))
                 elif op["kind"] == "update":
-                    r = ("ok", cache.update_file(op["file"], op["arg"]))
+                    r = ("ok", cache.update_file(op["file"], op["arg"], use_fsync=True) if op.get("fsync")
+                         else cache.update_file(op["file"], op["arg"]))
                 else:
                     r = ("ok", cache.unload_file(op["file"]))
             except SystemExit:
